@@ -21,6 +21,7 @@ BBDEFS = [
     {"name": "ff", "inputs": ["clk", "d"], "outputs": ["q"]},
     {"name": "one", "inputs": ["p"], "outputs": ["o"]},
     {"name": "two", "inputs": ["a", "b"], "outputs": ["y", "z"]},
+    {"name": "dot", "inputs": ["p.d"], "outputs": ["o"]},  # pin name containing the separator
 ]
 
 
@@ -52,6 +53,11 @@ def gen(rng, ctx):
         return {"start": start, "children": children, "ops": ops, "storm": True}
     live = list(existing)
     insts = list(start["bbs"]) if start else []
+    ltype = {n: t for n, t, _ in start["nodes"]} if start else {}
+
+    def of_type(*types):
+        c = [n for n in live if ltype.get(n) in types]
+        return rng.choice(c) if c else None
 
     def pick(k=None):
         pool = live + names if live else names
@@ -68,7 +74,56 @@ def gen(rng, ctx):
         return [pick() for _ in range(rng.randint(1, maxn))]
 
     for _ in range(n_ops):
-        k = rng.choice(["add", "add", "add", "add_uid", "connect", "connect", "connect", "disconnect", "remove", "set_output", "add_blackbox", "add_subcircuit", "fill_blackbox"])
+        k = rng.choice(["add", "add", "add", "add_uid", "connect", "connect", "connect", "disconnect", "remove", "set_output", "add_blackbox", "add_subcircuit", "fill_blackbox", "targeted"])
+        if k == "targeted":
+            # calls aimed at one wiring rule, built from the (approximate) types of the live nodes
+            t = rng.choice(["bbout_to_bufs", "second_driver", "into_source", "from_bbin", "bbout_to_gate", "fresh_bufs_then_bbout", "bb_conn_list", "add_bbout_fanout"])
+            bo, bi = of_type("bb_output"), of_type("bb_input")
+            bufs = [n for n in live if ltype.get(n) == "buf"]
+            if t == "fresh_bufs_then_bbout":
+                b0, b1 = f"fb{len(ops)}", f"fc{len(ops)}"
+                ops.append({"op": "add", "n": b0, "type": "buf", "uid": False, "output": True})
+                ops.append({"op": "add", "n": b1, "type": "buf", "uid": False, "output": True})
+                live += [b0, b1]
+                ltype[b0] = ltype[b1] = "buf"
+                name = f"T{len(ops)}"
+                bb = BBDEFS[1]
+                if rng.random() < 0.5:
+                    ops.append({"op": "add_blackbox", "bb": bb, "name": name, "connections": {}})
+                    ops.append({"op": "connect", "us": f"{name}.o", "vs": [b0, b1]})
+                else:
+                    ops.append({"op": "add_blackbox", "bb": bb, "name": name, "connections": {"o": [b0, b1]}})
+                insts.append(name)
+                live += [f"{name}.p", f"{name}.o"]
+                ltype[f"{name}.p"], ltype[f"{name}.o"] = "bb_input", "bb_output"
+            elif t == "add_bbout_fanout":
+                b0, b1 = f"fb{len(ops)}", f"fc{len(ops)}"
+                ops.append({"op": "add", "n": b0, "type": "buf", "uid": False, "output": True})
+                ops.append({"op": "add", "n": b1, "type": "buf", "uid": False, "output": True})
+                live += [b0, b1]
+                ltype[b0] = ltype[b1] = "buf"
+                ops.append({"op": "add", "n": f"po{len(ops)}", "type": "bb_output", "uid": False, "output": False, "fanout": [b0, b1]})
+            elif t == "bbout_to_bufs" and bo and bufs:
+                ops.append({"op": "connect", "us": bo, "vs": rng.sample(bufs, min(len(bufs), rng.randint(1, 2)))})
+            elif t == "second_driver" and (bi or bufs):
+                ops.append({"op": "connect", "us": [pick(), pick()] if rng.random() < 0.5 else pick(), "vs": rng.choice([x for x in [bi] + bufs if x])})
+            elif t == "into_source":
+                tgt = of_type("input", "0", "1", "x", "bb_output")
+                if tgt:
+                    ops.append({"op": "connect", "us": pick(), "vs": tgt})
+            elif t == "from_bbin" and bi:
+                ops.append({"op": "connect", "us": bi, "vs": pick()})
+            elif t == "bbout_to_gate" and bo:
+                g_ = of_type("and", "or", "xor", "not", "nand", "nor", "xnor")
+                if g_:
+                    ops.append({"op": "connect", "us": bo, "vs": g_})
+            elif t == "bb_conn_list" and bufs:
+                bb = rng.choice(BBDEFS)
+                name = rng.choice(["u", "v", "w", "u.p", "u.v", f"T{len(ops)}"])
+                conns = {bb["outputs"][0]: rng.sample(bufs, min(len(bufs), 2)), bb["inputs"][0]: [pick(), pick()] if rng.random() < 0.3 else pick()}
+                ops.append({"op": "add_blackbox", "bb": bb, "name": name, "connections": conns})
+                insts.append(name)
+            continue
         if k in ("add", "add_uid"):
             t = rng.choice(TYPES) if rng.random() < 0.92 else rng.choice(BAD_TYPES)
             n = rng.choice(names) if rng.random() < 0.75 else pick()
@@ -79,6 +134,7 @@ def gen(rng, ctx):
                 op["fanout"] = picks(2)
             ops.append(op)
             live.append(n)
+            ltype.setdefault(n, t)
         elif k == "connect":
             ops.append({"op": "connect", "us": picks(), "vs": picks()})
         elif k == "disconnect":
@@ -89,7 +145,7 @@ def gen(rng, ctx):
             ops.append({"op": "set_output", "ns": picks(2), "value": rng.random() < 0.7})
         elif k == "add_blackbox":
             bb = rng.choice(BBDEFS)
-            name = rng.choice(["u", "v", "w", "I", "1z", "u"]) if rng.random() < 0.8 else pick()
+            name = rng.choice(["u", "v", "w", "I", "1z", "u", "u.p", "u.v"]) if rng.random() < 0.8 else pick()
             conns = {}
             for p in bb["inputs"] + bb["outputs"]:
                 if rng.random() < 0.5:
@@ -99,6 +155,10 @@ def gen(rng, ctx):
             ops.append({"op": "add_blackbox", "bb": bb, "name": name, "connections": conns})
             insts.append(name)
             live += [f"{name}.{p}" for p in bb["inputs"] + bb["outputs"]]
+            for p in bb["inputs"]:
+                ltype.setdefault(f"{name}.{p}", "bb_input")
+            for p in bb["outputs"]:
+                ltype.setdefault(f"{name}.{p}", "bb_output")
         elif k == "add_subcircuit":
             ci = rng.randrange(2)
             ch = children[ci]
